@@ -144,6 +144,12 @@ def classify(gen, res, unit):
     if kind in ("ensures", "invariant", "hint", "loop_ensures") and org.get("name"):
       props, clean = split_props(org["name"], unit.props)
       fails.append({"name": clean, "props": props, "msg": msg, "fn": org.get("fn"), "clause": org.get("text"), "spans": others, "rendered": rendered})
+    elif kind == "code" and [o for o in others if o["origin"].get("kind") in ("invariant", "ensures", "loop_ensures") and o["origin"].get("name")]:
+      # e.g. "loop invariant not satisfied at this continue/break/exit": the named clause is in a secondary span
+      o = [o for o in others if o["origin"].get("kind") in ("invariant", "ensures", "loop_ensures") and o["origin"].get("name")][0]["origin"]
+      props, clean = split_props(o["name"], unit.props)
+      fails.append({"name": clean, "props": props, "msg": msg, "fn": o.get("fn"), "clause": "%s (at %s:%s `%s`)" % (o.get("text"), org.get("file"), org.get("line"), gen.lines[ln - 1].strip()[:80]),
+                    "spans": others, "rendered": rendered})
     elif kind == "code":
       # safety obligation inside an extracted function: find enclosing fn
       fnname = enclosing_fn(gen, ln)
